@@ -24,6 +24,10 @@ pub enum RngMode {
     Replay(String),
     /// healthy stream, but the `i`-th call (1-based) of fill_bytes panics: models OsRng failing
     PanicAt(usize, u64),
+    /// healthy stream except that the `i`-th call (1-based) returns zeros
+    ZeroBlockAt(usize, u64),
+    /// healthy stream except that the `i`-th call (1-based, i >= 2) returns what the previous call returned
+    RepeatBlockAt(usize, u64),
 }
 
 impl RngMode {
@@ -38,6 +42,8 @@ impl RngMode {
             RngMode::StuckAfter(..) => "stuck_after",
             RngMode::Replay(_) => "replay",
             RngMode::PanicAt(..) => "panic_at",
+            RngMode::ZeroBlockAt(..) => "zero_block_at",
+            RngMode::RepeatBlockAt(..) => "repeat_block_at",
         }
     }
 
@@ -70,7 +76,11 @@ pub struct FaultRng {
 impl FaultRng {
     pub fn new(mode: RngMode) -> Self {
         let (healthy, pattern) = match &mode {
-            RngMode::Healthy(s) | RngMode::StuckAfter(_, s) | RngMode::PanicAt(_, s) => (SimRng::new(*s), vec![]),
+            RngMode::Healthy(s)
+            | RngMode::StuckAfter(_, s)
+            | RngMode::PanicAt(_, s)
+            | RngMode::ZeroBlockAt(_, s)
+            | RngMode::RepeatBlockAt(_, s) => (SimRng::new(*s), vec![]),
             RngMode::ShortPeriod(p, s) => {
                 let mut r = SimRng::new(*s);
                 let mut v = vec![0u8; *p];
@@ -126,6 +136,25 @@ impl RngCore for FaultRng {
         }
         match &self.mode {
             RngMode::Healthy(_) | RngMode::PanicAt(..) => self.healthy.fill(dest),
+            RngMode::ZeroBlockAt(i, _) => {
+                if self.calls == *i {
+                    dest.iter_mut().for_each(|b| *b = 0);
+                } else {
+                    self.healthy.fill(dest);
+                }
+            },
+            RngMode::RepeatBlockAt(i, _) => {
+                if self.calls == *i && self.calls >= 2 {
+                    for (k, b) in dest.iter_mut().enumerate() {
+                        *b = self.last_block[k % 32];
+                    }
+                } else {
+                    self.healthy.fill(dest);
+                    for (k, b) in dest.iter().enumerate().take(32) {
+                        self.last_block[k] = *b;
+                    }
+                }
+            },
             RngMode::AllZero => dest.iter_mut().for_each(|b| *b = 0),
             RngMode::AllOnes => dest.iter_mut().for_each(|b| *b = 0xff),
             RngMode::ConstantByte(c) => {
